@@ -5,6 +5,7 @@ CONSTANTS
   FAdd <- GAdd
   FMul <- GMul
   FLess <- GLess
+  FW <- SevenG
   NW <- NWc
   NR <- NRc
   NC <- NCc
